@@ -24,20 +24,15 @@ pub open spec fn pr_map<A, B>(p: PR<A>, f: spec_fn(A) -> B) -> PR<B> {
     }
 }
 
-/// the elements of a zero-copy sequence as decoded from their memory image (uninterpreted)
-pub uninterp spec fn zc_seq<T>(bytes: Seq<u8>, len: nat) -> Seq<T>;
-pub axiom fn axiom_zc_seq<T>()
-    ensures forall|b: Seq<u8>, len: nat| (#[trigger] zc_seq::<T>(b, len)).len() == len;
-
 /// pointer-width length, minimal gap to a multiple of T's unit, len * size_of::<T>() bytes
 pub open spec fn parse_seq_zero<T: MaxSizeOf>(s: Seq<u8>, pos: nat) -> PR<Seq<T>> {
     if s.len() < 8 { PR::Short }
     else {
         let len = usize_of(s.take(8)) as nat;
-        let pad = pad_spec((pos + 8) as int, T::unit() as int) as nat;
+        let pad = seq_zero_pad::<T>(pos);
         let bytes = len * vstd::layout::size_of::<T>();
-        if s.len() < 8 + pad + bytes { PR::Short }
-        else { PR::Val(zc_seq::<T>(s.subrange((8 + pad) as int, (8 + pad + bytes) as int), len), 8 + pad + bytes) }
+        if s.len() < seq_zero_span::<T>(pos, len) { PR::Short }
+        else { PR::Val(zc_seq::<T>(s.skip(8).skip(pad as int).take(bytes as int), len), seq_zero_span::<T>(pos, len)) }
     }
 }
 
@@ -48,12 +43,12 @@ proof fn lemma_seq_zero_prefix<T: MaxSizeOf>(s: Seq<u8>, pos: nat, k: nat)
         k >= parse_seq_zero::<T>(s, pos)->Val_1 ==> parse_seq_zero::<T>(s.take(k as int), pos) == parse_seq_zero::<T>(s, pos),
 {
     let len = usize_of(s.take(8)) as nat;
-    let pad = pad_spec((pos + 8) as int, T::unit() as int) as nat;
+    let pad = seq_zero_pad::<T>(pos);
     let bytes = len * vstd::layout::size_of::<T>();
     if k >= 8 {
         assert(s.take(k as int).take(8) =~= s.take(8));
         if k >= 8 + pad + bytes {
-            assert(s.take(k as int).subrange((8 + pad) as int, (8 + pad + bytes) as int) =~= s.subrange((8 + pad) as int, (8 + pad + bytes) as int));
+            assert(s.take(k as int).skip(8).skip(pad as int).take(bytes as int) =~= s.skip(8).skip(pad as int).take(bytes as int));
         }
     }
 }
@@ -120,6 +115,7 @@ proof fn lemma_seq_zero_prefix<T: MaxSizeOf>(s: Seq<u8>, pos: nat, k: nat)
 
 //@item epserde/src/impls/vec.rs props=C01,C02 name=Vec::DeserializeHelper<Zero> <<impl<T: ZeroCopy + DeserializeInner> DeserializeHelper<Zero> for Vec<T> {>>
 //@  replace <<deser::Result>> <<Result>>
+//@  replace <<deserialize_full_vec_zero(backend)>> <<deserialize_full_vec_zero::<T, _>(backend)>>
 //@  body_prefix
 //@|    open spec fn parse_impl(s: Seq<u8>, pos: nat) -> PR<Vec<T>> { pr_map(parse_seq_zero::<T>(s, pos), |vs: Seq<T>| vec_of(vs)) }
 //@|    open spec fn eps_rel_impl<'a>(d: &'a [T], v: Vec<T>) -> bool { d@ == v@ }
@@ -127,7 +123,8 @@ proof fn lemma_seq_zero_prefix<T: MaxSizeOf>(s: Seq<u8>, pos: nat, k: nat)
 //@  sub <<fn _deserialize_full_inner_impl(backend: &mut impl ReadWithPos) -> deser::Result<Self> {>>
 //@  impl_arg
 //@  ret r
-//@  external_body
+//@  body_prefix
+//@|        proof { axiom_u8_size(); axiom_vec_of::<T>(); axiom_zc_image::<T>(); axiom_zc_seq::<T>(); }
 //@  sub <<fn _deserialize_eps_inner_impl<'a>(>>
 //@  ret r
 //@  external_body
@@ -193,7 +190,8 @@ pub assume_specification<T, A: Allocator>[ Vec::<T, A>::into_boxed_slice ](v: Ve
 //@  sub <<fn _deserialize_full_inner_impl(backend: &mut impl ReadWithPos) -> deser::Result<Self> {>>
 //@  impl_arg
 //@  ret r
-//@  external_body
+//@  body_prefix
+//@|        proof { axiom_u8_size(); axiom_box_of::<T>(); axiom_zc_image::<T>(); axiom_zc_seq::<T>(); }
 //@  sub <<fn _deserialize_eps_inner_impl<'a>(>>
 //@  ret r
 //@  external_body
